@@ -70,6 +70,35 @@ Theorem C12_spelling_invariant_plain : forall nm st p P' E1 C E4 dns d Ld,
 Proof. exact py_spelling_plain. Qed.
 Print Assumptions C12_spelling_invariant_plain.
 
+(* SPELLING INVARIANCE, titles whose text before the first colon is NOT a namespace name of the site — e.g. a name only
+   ANOTHER wiki defines ("Portal:x" on a wiki without portal namespace).  p is the tidy title (it may contain colons but
+   does not start with one), a the text before the first colon of the capitalised p, not_a_name: no local name, canonical
+   name or alias of THIS site equals a the way _find_namespace compares (lower-cased, stripped).  The title is then an
+   ordinary page name of the default namespace (main namespace after a leading colon), whatever the decorations. *)
+Theorem C12_spelling_invariant_foreign_prefix : forall nm st p P' E1 C E4 dns d Ld a b,
+  In (nm, st) all_sites ->
+  Forall (edge' py_is_ws) E1 -> Forall (edge' py_is_ws) (match C with Some E2 => E2 | None => [] end) ->
+  Forall (edge' py_is_ws) E4 ->
+  tidy py_is_ws p -> head_not_colon p -> expands p P' ->
+  d = (match C with Some _ => 0%Z | None => dns end) -> star_of st d = Some Ld ->
+  split1 c_colon (maybe_capitalize py_upper_char (s_capitalize st) p) = Some (a, b) ->
+  not_a_name py_is_ws py_lower_char py_cased py_ignorable st a ->
+  py_splitname st (E1 ++ lead C ++ P' ++ E4) dns
+  = Ok (d, maybe_capitalize py_upper_char (s_capitalize st) p,
+        prefix_of Ld ++ maybe_capitalize py_upper_char (s_capitalize st) p).
+Proof. exact py_spelling_foreign. Qed.
+Print Assumptions C12_spelling_invariant_foreign_prefix.
+
+(* Each site answers from ITS OWN table: en.wikipedia.org and simple.wikipedia.org both call themselves ("Wikipedia", "en"),
+   yet "portal:x" is page X of namespace 100 on the former and the main-namespace page "Portal:x" on the latter. *)
+Example C12_same_sitename_different_namespaces :
+  exists en simple, In ([101; 110], en) all_sites /\ In ([115; 105; 109; 112; 108; 101], simple) all_sites /\
+  py_splitname en [112; 111; 114; 116; 97; 108; 58; 120] 0%Z = Ok (100%Z, [88], [80; 111; 114; 116; 97; 108; 58; 88]) /\
+  py_splitname simple [112; 111; 114; 116; 97; 108; 58; 120] 0%Z = Ok (0%Z, [80; 111; 114; 116; 97; 108; 58; 120], [80; 111; 114; 116; 97; 108; 58; 120]) /\
+  not_a_name py_is_ws py_lower_char py_cased py_ignorable simple [80; 111; 114; 116; 97; 108].
+Proof. exact portal_en_simple. Qed.
+Print Assumptions C12_same_sitename_different_namespaces.
+
 (* Non-vacuity: concrete runs on the site "de".
    "_ :bENUTZER__diskussion \t: <LRM>ßx_y " and "User talk:ßx y" both give (3, "SSx y", "Benutzer Diskussion:SSx y"),
    and that name is a fixed point under default namespaces 0 and 6. *)
